@@ -2,8 +2,15 @@ package props
 
 import (
 	"fmt"
+	"regexp"
 	"sort"
 	"strings"
+
+	"github.com/go-kid/ioc/configure"
+	"github.com/go-kid/ioc/container/factory"
+	"github.com/go-kid/ioc/container/processors"
+	"github.com/go-kid/ioc/container/support"
+	"github.com/go-kid/ioc/util/vsync"
 
 	"verif/internal/core"
 	"verif/internal/envx"
@@ -24,6 +31,7 @@ func init() {
 			{Name: "self-candidate", Run: c10Self, QuickS: 40, ThoroughS: 300},
 			{Name: "graph-orders", Run: c10Graphs, QuickS: 60, ThoroughS: 900},
 			{Name: "percall-deviations", Run: c10Dev, QuickS: 60, ThoroughS: 900},
+			{Name: "scan-schedules", Run: c10Scan, QuickS: 60, ThoroughS: 900},
 		},
 	})
 }
@@ -348,3 +356,124 @@ func c10Dev(c *core.Ctx) {
 		}
 	})
 }
+
+// ---- goroutine schedules of the parallel scanning phase: the definition registry must end up
+// the same (names, properties per definition) on every schedule and under every spawn order
+
+type c10ScanComp struct {
+	Nm  string
+	Dep scen.Iface   `wire:""`
+	All []scen.Iface `wire:",required=false"`
+	V   string       `value:"${k:d}"`
+	P   string       `prop:"k:d"`
+}
+
+func (x *c10ScanComp) ID() string     { return x.Nm }
+func (x *c10ScanComp) Naming() string { return x.Nm }
+
+type c10ScanCase struct {
+	N      int   `json:"components"`
+	Order  []int `json:"spawn_order"`
+	Bound  int   `json:"preemption_bound"`
+	Script []int `json:"schedule,omitempty"`
+}
+
+func c10Scan(c *core.Ctx) {
+	gen := func(yield func(c10ScanCase) bool) {
+		for n := 1; n <= 3; n++ {
+			bound := 3 - n // n+1 goroutines per scanner (the scanner is a component itself)
+			if c.Thorough() {
+				bound++
+			}
+			for k := 0; k < factorialInt(n); k++ {
+				if !yield(c10ScanCase{N: n, Order: scen.NthPerm(n, k), Bound: bound}) {
+					return
+				}
+			}
+		}
+	}
+	var reference string
+	Cases(c, gen, func(c *core.Ctx, cs c10ScanCase) {
+		rank := map[string]int{}
+		for pos, i := range cs.Order {
+			rank[fmt.Sprintf("s%d", i)] = pos
+		}
+		sig := ""
+		body := func() {
+			reg := support.NewRegistry()
+			for i := 0; i < cs.N; i++ {
+				reg.RegisterSingleton(&c10ScanComp{Nm: fmt.Sprintf("s%d", i)})
+			}
+			reg.RegisterSingleton(processors.NewDependencyAwarePostProcessors())
+			if cs.N == 1 {
+				reg.RegisterSingleton(processors.NewValueAwarePostProcessors()) // a second scanner phase
+			}
+			f := factory.Default()
+			f.SetRegistry(reg)
+			f.SetConfigure(configure.NewConfigure())
+			err := f.PrepareComponents()
+			var parts []string
+			for _, m := range f.GetDefinitionRegistry().GetMetas() {
+				var props []string
+				for _, p := range m.GetAllProperties() {
+					props = append(props, p.ID())
+				}
+				sort.Strings(props)
+				parts = append(parts, m.Name()+"{"+strings.Join(props, ";")+"}")
+			}
+			sort.Strings(parts)
+			sig = fmt.Sprintf("err=%v ", err != nil) + strings.Join(parts, " ")
+		}
+		first := ""
+		oracle := func(e *scen.SchedExec) {
+			c.S.Evaluations++
+			c.S.States++
+			cc := cs
+			cc.Script = e.Script
+			// addresses differ between executions: compare with pointers masked
+			s := maskPointers(sig)
+			if first == "" {
+				first = s
+			}
+			key := "C10/scan/" + core.Hash(cs.N)
+			switch {
+			case e.Deadlock || len(e.ChildPanics) > 0:
+				c.Outcome("scan/crash")
+				c.Report(key, "order-dependent", fmt.Sprintf("scanning %d components: deadlock=%v panics=%v under schedule %v", cs.N, e.Deadlock, e.ChildPanics, e.Script), cc)
+			case s != first:
+				c.Outcome("scan/differs")
+				c.Report(key, "order-dependent", fmt.Sprintf("scanning %d components, spawn order %v: the definition registry differs between schedules:\n  %s\nvs under schedule %v:\n  %s", cs.N, cs.Order, first, e.Script, s), cc)
+			default:
+				c.Outcome(fmt.Sprintf("scan/n=%d/same-registry", cs.N))
+			}
+		}
+		vsync.KeyRank = rank
+		defer func() { vsync.KeyRank = nil }()
+		if c.ReplayCase != nil {
+			scen.ReplaySched(nil, body)
+			first = maskPointers(sig)
+			oracle(scen.ReplaySched(cs.Script, body))
+			return
+		}
+		c.S.Programs++
+		c.S.Nontrivial++
+		st := scen.ExploreSched(cs.Bound, 0, c.Expired, body, oracle)
+		c.S.Transitions += st.Points
+		if st.Truncated {
+			c.Cap("scan schedule exploration truncated by the budget")
+		}
+		// every spawn order of one component count must give the same registry as well
+		if cs.N == 3 {
+			if reference == "" {
+				reference = first
+			} else if reference != first {
+				c.Report("C10/scan-order/"+core.Hash(cs.N), "order-dependent", fmt.Sprintf("spawn order %v gives another definition registry than the first spawn order", cs.Order), cs)
+			}
+		}
+		c.Sample(map[string]any{"config": cs, "schedules": st.Execs, "registry": first})
+	})
+}
+
+var pointerRe = regexp.MustCompile(`0x[0-9a-f]+`)
+
+func maskPointers(s string) string { return pointerRe.ReplaceAllString(s, "0xPTR") }
